@@ -56,7 +56,8 @@ def r1_none_before_convert(w):
             continue
         bad = None
         for result, events, assumed in res:
-            if isinstance(result, Agg) and result.adt.endswith('Option') and result.variant == 'None':
+            # a result that is not definitely Some (None, or an Option the evaluator could not resolve) may be None
+            if not (isinstance(result, Agg) and result.adt.endswith('Option') and result.variant == 'Some'):
                 convs = [e for e in events if e[0] == 'convert' and not LEAFY.search(e[1])]
                 if convs:
                     bad = [last(e[1]) for e in convs][:3]
